@@ -54,7 +54,7 @@ def work(args):
             shapes.add(h)
         if len(samples) < 2 and h is not None and k % 97 == 3:
             samples.append(code[:200])
-        vs = versions if chunk[0] in ('exh', 'files', 'list') else [versions[(k + chunk[1]) % len(versions)]]
+        vs = versions if chunk[0] in ('exh', 'files', 'list', 'gram') else [versions[(k + chunk[1]) % len(versions)]]
         for v in vs:
             evals += 1
             try:
@@ -105,7 +105,7 @@ def main():
     rv = a.rnd_versions.split(',') if a.rnd_versions else versions
     jobs = []
     for c in chunks:
-        jobs.append((c, a.prop, versions if c[0] in ('exh', 'files', 'list') else rv, a.repo, a.extra))
+        jobs.append((c, a.prop, versions if c[0] in ('exh', 'files', 'list', 'gram') else rv, a.repo, a.extra))
     evals = 0
     shapes = set()
     fails = {}
